@@ -46,7 +46,7 @@ pub fn l1_body(lead: &'static [u8], b0: u8, n: usize, sigma: &'static [u8], asm:
         }
     }
     // agreement with the reference scanner
-    let ctx = Ctx { keywords: lx::keywords(), asm, is_first, prev_dot: prev == Some(RawTokenType::Op(OperatorKind::Dot)) };
+    let ctx = Ctx { word_kind: Some(lx::get_word_token_type), keywords: lx::keywords(), asm, is_first, prev_dot: prev == Some(RawTokenType::Op(OperatorKind::Dot)) };
     if let Some((want_end, want_ty)) = ref_token(s, ws, &ctx) {
         assert!(len == want_end, "token boundary differs from the reference scanner");
         assert!(ty == want_ty, "token kind differs from the reference scanner");
@@ -80,8 +80,11 @@ const S_DIR: &[u8] = b"ifdeEls }*)n";
 const S_WORD: &[u8] = b"aAeEnNdDsSmM_1 .";
 
 l1! {
+    c13_l1_lparen_n2 => (6; b"", b'(', 2, S_CMT, false),
     c13_l1_lparen_n3 => (7; b"", b'(', 3, S_CMT, false),
     c13_l1_lparen_n5 => (9; b"", b'(', 5, S_CMT, false),
+    c13_l1_lbrace_n1 => (5; b"", b'{', 1, S_CMT, false),
+    c13_l1_lbrace_n2 => (6; b"", b'{', 2, S_CMT, false),
     c13_l1_lbrace_n3 => (7; b"", b'{', 3, S_CMT, false),
     c13_l1_lbrace_n5 => (11; b" \n", b'{', 5, S_CMT, false),
     c13_l1_lbrace_directive_n5 => (9; b"", b'{', 5, S_DIR, false),
@@ -92,9 +95,12 @@ l1! {
     c13_l1_rangle_n2 => (6; b"", b'>', 2, S_OPS, false),
     c13_l1_dot_n2 => (6; b"", b'.', 2, S_OPS, false),
     c13_l1_simple_ops_n1 => (5; b"", b'+', 1, S_OPS, false),
+    c13_l1_quote_n1 => (5; b"", b'\'', 1, S_TXT, false),
+    c13_l1_quote_n2 => (6; b"", b'\'', 2, S_TXT, false),
     c13_l1_quote_n3 => (7; b"", b'\'', 3, S_TXT, false),
     c13_l1_quote_n5 => (9; b"", b'\'', 5, S_TXT, false),
     c13_l1_quote_n6 => (10; b"", b'\'', 6, S_TXT, false),
+    c13_l1_hash_n2 => (6; b"", b'#', 2, S_TXT, false),
     c13_l1_hash_n4 => (8; b"", b'#', 4, S_TXT, false),
     c13_l1_hash_n6 => (10; b"", b'#', 6, S_TXT, false),
     c13_l1_amp_n3 => (7; b"", b'&', 3, b"&$%1a_. ", false),
@@ -104,9 +110,9 @@ l1! {
     c13_l1_digit_n3 => (7; b"", b'1', 3, S_NUM, false),
     c13_l1_digit_n5 => (9; b"", b'1', 5, S_NUM, false),
     c13_l1_digit_n6 => (10; b"", b'7', 6, S_NUM, false),
-    c13_l1_word_a_n3 => (124; b"", b'a', 3, S_WORD, false),
-    c13_l1_word_e_n3 => (124; b"", b'E', 3, S_WORD, false),
-    c13_l1_word_a_n5 => (124; b"\t", b'a', 5, S_WORD, false),
+    c13_l1_word_a_n3 => (8; b"", b'a', 3, S_WORD, false),
+    c13_l1_word_e_n3 => (8; b"", b'E', 3, S_WORD, false),
+    c13_l1_word_a_n5 => (11; b"\t", b'a', 5, S_WORD, false),
     c13_l1_underscore_n3 => (7; b"", b'_', 3, S_WORD, false),
     c13_l1_unknown_n1 => (5; b"", b'!', 1, b"a! ", false),
     c13_l1_asm_word_a_n3 => (7; b"", b'a', 3, S_WORD, true),
@@ -318,3 +324,42 @@ v1! {
     c13_v1_avx2_eq_ref_len65_off0 => (65, 0, false),
     c13_v1_avx2_eq_ref_len66_off2_u3000 => (66, 2, true)
 }
+
+/// K2: the hashed keyword lookup == linear scan of the real `KEYWORDS` table (ASCII
+/// case-insensitive) for EVERY word of `n` letters over the letters that occur in short keywords
+/// (so hits and near-misses are both reachable): in particular a non-`Identifier` answer implies
+/// a matching entry, and a matching entry is found.
+fn k2_body(n: usize) {
+    let mut arr = [0u8; 8];
+    let mut k = 0;
+    while k < n {
+        arr[k] = pick(&[b'a', b'A', b'n', b'N', b'd', b'D', b's', b'i', b'I', b'f', b'o', b'r', b't', b'O', b'_', b'1']);
+        k += 1;
+    }
+    let w = unsafe { std::str::from_utf8_unchecked(&arr[..n]) };
+    let got = lx::get_word_token_type(w);
+    let kws = lx::keywords();
+    let mut want = RawTokenType::Identifier;
+    let mut i = 0;
+    while i < kws.len() {
+        let kw = kws[i].0.as_bytes();
+        if kw.len() == n {
+            let mut eq = true;
+            let mut j = 0;
+            while j < n {
+                eq &= kw[j] == arr[j].to_ascii_lowercase();
+                j += 1;
+            }
+            if eq {
+                want = kws[i].1;
+            }
+        }
+        i += 1;
+    }
+    assert!(got == want, "keyword lookup differs from a linear scan of the keyword table");
+    cover!(want != RawTokenType::Identifier, "keyword_hit");
+    cover!(want == RawTokenType::Identifier, "identifier");
+}
+harness! { fn c13_k2_keyword_lookup_eq_scan_len2() unwind(124) { k2_body(2) } }
+harness! { fn c13_k2_keyword_lookup_eq_scan_len3() unwind(124) { k2_body(3) } }
+harness! { fn c13_k2_keyword_lookup_eq_scan_len4() unwind(124) { k2_body(4) } }
